@@ -34,6 +34,18 @@ POS = {
     "alter_check": ("CREATE TABLE t1 (a int, b varchar(50));\nALTER TABLE t1 ADD CHECK (b <> {L});", lambda r: r[0]["alter"]["checks"][0]["statement"]),
     "enum": ("CREATE TYPE ty1 AS ENUM ('first', {L}, 'last');", lambda r: r[0]["properties"]["values"][1]),
     "option": ("CREATE TABLE t1 (a int, b varchar(50), c int) LOCATION {L};", lambda r: r[0]["table_properties"]["location"]),
+    # literals as LIST elements / option values inside CREATE TABLE (wave-4 seeds C07-I / C07-J)
+    "col_enum": ("CREATE TABLE t1 (a int, b ENUM('first', {L}, 'last'), c int);", lambda r: r[0]["columns"][1]["values"][1]),
+    "col_check_in": ("CREATE TABLE t1 (a int, b varchar(50) CHECK (b IN ('x', {L})), c int);", lambda r: r[0]["columns"][1]["check"][0]["in_statement"]["in"][1]),
+    "default_paren": ("CREATE TABLE t1 (a int, b varchar(50) DEFAULT ({L}), c int);", lambda r: r[0]["columns"][1]["default"]),
+    "tblproperties": ("CREATE TABLE t1 (a int, b int) TBLPROPERTIES ('k1'={L}, 'K2'='v2');", lambda r: r[0]["table_properties"]["tblproperties"]["'k1'"]),
+    "catalog": ("CREATE TABLE t1 (a int, b int) CATALOG = {L};", lambda r: r[0]["table_properties"]["catalog"]),
+    "pattern": ("CREATE TABLE t1 (a int, b int) PATTERN = {L};", lambda r: r[0]["table_properties"]["pattern"]),
+    "table_format": ("CREATE TABLE t1 (a int, b int) TABLE_FORMAT = {L};", lambda r: r[0]["table_properties"]["table_format"]),
+    "external_volume": ("CREATE TABLE t1 (a int, b int) EXTERNAL_VOLUME = {L};", lambda r: r[0]["table_properties"]["external_volume"]),
+    "table_comment_eq": ("CREATE TABLE t1 (a int, b int) COMMENT = {L};", lambda r: r[0]["comment"]),
+    "serde_class": ("CREATE TABLE t1 (a int, b int) ROW FORMAT SERDE {L};", lambda r: r[0]["table_properties"]["row_format"]["java_class"]),
+    "fields_terminated": ("CREATE TABLE t1 (a int, b int) FIELDS TERMINATED BY {L};", lambda r: r[0]["table_properties"]["fields_terminated_by"]),
 }
 
 
